@@ -802,7 +802,7 @@ static void scan(scanner_t *scnp)
 			scnp->scn_token = T_ERROR;
 			return;
 		    }
-		    protected = scnp->scn_position;
+		    protected = destination;
 		}
 		*destination++ = scnp->scn_cur;
 		VNAPROPERTY_GETCHAR(scnp);
